@@ -202,6 +202,34 @@ def js_pow(base: Union[int, float], exponent: Union[int, float]) -> Union[int, f
         return nan  # negative base with a non-integer exponent
 
 
+def _float_to_js_string(value: float) -> str:
+    """Number::toString for a finite non-zero double (ECMA-262 6.1.6.1.20).
+
+    repr() supplies the shortest round-tripping digits; the notation follows
+    JavaScript: plain decimals for 1e-6 <= |x| < 1e21, exponent form elsewhere.
+    """
+    sign = "-" if value < 0 else ""
+    mantissa, _, exp = repr(abs(value)).partition("e")
+    int_part, _, frac_part = mantissa.partition(".")
+    digits = (int_part + frac_part).lstrip("0")
+    # n: position of the decimal point relative to the first significant digit
+    n = len(int_part.lstrip("0")) if int_part.strip("0") else -(len(frac_part) - len(frac_part.lstrip("0")))
+    n += int(exp) if exp else 0
+    digits = digits.rstrip("0") or "0"
+    k = len(digits)
+    if k <= n <= 21:
+        return sign + digits + "0" * (n - k)
+    if 0 < n <= 21:
+        return sign + digits[:n] + "." + digits[n:]
+    if -6 < n <= 0:
+        return sign + "0." + "0" * (-n) + digits
+    e = n - 1
+    exponent = ("+" if e >= 0 else "-") + str(abs(e))
+    if k == 1:
+        return sign + digits + "e" + exponent
+    return sign + digits[0] + "." + digits[1:] + "e" + exponent
+
+
 def to_string(value: JSValue) -> str:
     """Convert a JavaScript value to string."""
     if value is UNDEFINED:
@@ -219,14 +247,9 @@ def to_string(value: JSValue) -> str:
             return "Infinity"
         if value == float("-inf"):
             return "-Infinity"
-        # Handle -0
-        if value == 0 and math.copysign(1, value) < 0:
-            return "0"
-        # Format float nicely
-        s = repr(value)
-        if s.endswith(".0"):
-            return s[:-2]
-        return s
+        if value == 0:
+            return "0"  # also for -0
+        return _float_to_js_string(value)
     if isinstance(value, str):
         return value
     # TODO: Handle objects with toString
